@@ -14,8 +14,8 @@ PY
 [ $? -ne 0 ] && { echo "mutation not applied"; exit 9; }
 for c in "$@"; do
   out=$(/verif/check $c quick 2>&1)
-  echo "$out" | grep -E "VIOLATION|INCONCLUSIVE" | head -3 | cut -c1-200
-  echo "$out" | grep -E "signature=" | sed 's/detail=.*//' | sort | uniq -c | head -8
+  echo "$out" | grep -E "^VIOLATION|^INCONCLUSIVE" | head -3 | cut -c1-200
+  echo "$out" | grep -E "^  signature=" | sed 's/detail=.*//' | sort | uniq -c | head -8
   echo "$out" | tail -1 | cut -c1-200
 done
 git -C /repo checkout -- .
